@@ -13,16 +13,24 @@ TRACED = {"backup_db", "create_db", "close_db_conn", "overwrite_pages", "overwri
 count = [0]
 
 
+active = [0]
+
+
 def tracer(frame, event, arg):
+    """Line events count in the traced functions and in every package function running on their behalf (a helper the
+    flow was refactored into is covered without being named here)."""
     code = frame.f_code
-    if "wikitextprocessor" not in code.co_filename or code.co_name not in TRACED:
+    if "wikitextprocessor" not in code.co_filename or (code.co_name not in TRACED and active[0] == 0):
         return None
+    active[0] += 1
 
     def local(frame, event, arg):
         if event == "line":
             count[0] += 1
             if count[0] == k:
                 os._exit(9)
+        elif event == "return":
+            active[0] -= 1
         return local
     return local
 
